@@ -265,12 +265,62 @@ func c18GenHardlinkFamily(h *H) *c18Case {
 	return c
 }
 
+// c18GenDupLinkFamily: raw tree with a duplicate name: a symlink `d -> outside` and a directory
+// `d` whose only content are items that are created in the SECOND pass (the second name of a
+// hard linked file, symlinks, fifos). The first pass leaves `d` empty, the second pass replaces
+// it by the symlink and then has to re-check the parent before creating anything "in" it.
+func c18GenDupLinkFamily(h *H) *c18Case {
+	c := &c18Case{labels: map[string]bool{}}
+	c.lbl("family-dup-symlink-dir-secondpass-items")
+	c.lbl("duplicate-names")
+	c.lbl("symlink-node")
+	d := h.Pick(c18Names)
+	first := &vNode{Name: "h1", Type: data.NodeTypeFile, Mode: 0644, Links: 2, Inode: 7,
+		Parts: [][]byte{[]byte("hardlinked-7")}}
+	var inner []*vNode
+	switch h.Intn(4) {
+	case 0:
+		inner = append(inner, &vNode{Name: h.Pick(c18Names), Type: data.NodeTypeSymlink, Target: "x"})
+	case 1:
+		inner = append(inner, &vNode{Name: h.Pick(c18Names), Type: data.NodeTypeFifo, Mode: 0644})
+		c.lbl("fifo-node")
+	default:
+		inner = append(inner, &vNode{Name: h.Pick([]string{"h2", "x", "c", "secret"}), Type: data.NodeTypeFile,
+			Mode: 0666, Links: 2, Inode: 7, Parts: [][]byte{[]byte("hardlinked-7")}})
+		c.lbl("hardlink")
+	}
+	if h.Intn(4) == 0 {
+		inner = append(inner, &vNode{Name: "l2", Type: data.NodeTypeSymlink, Target: "."})
+	}
+	link := &vNode{Name: d, Type: data.NodeTypeSymlink,
+		Target: []string{"../outside", "$ABS/outside/sub", "../outside/b"}[h.Intn(3)]}
+	dir := &vNode{Name: d, Type: data.NodeTypeDir, Mode: 0755, Children: inner}
+	if h.Intn(5) == 0 {
+		c.tree = []*vNode{first, dir, link} // control: directory first
+	} else if h.Bool() {
+		c.tree = []*vNode{first, link, dir}
+	} else {
+		c.tree = []*vNode{link, first, dir}
+	}
+	c.filter = "none"
+	c.del = h.Intn(4) == 0
+	if c.del {
+		c.lbl("delete")
+	}
+	// (with --overwrite never the symlink is not restored over the directory: useless here)
+	c.ow = []string{"always", "always", "if-changed"}[h.Intn(3)]
+	c.lbl("ow-" + c.ow)
+	return c
+}
+
 func c18GenCase(h *H) *c18Case {
-	switch h.Intn(12) {
+	switch h.Intn(14) {
 	case 0, 1:
 		return c18GenChain(h)
 	case 2:
 		return c18GenHardlinkFamily(h)
+	case 3:
+		return c18GenDupLinkFamily(h)
 	}
 	c := &c18Case{labels: map[string]bool{}}
 	c.tree = c18GenTree(h, c, 0, "")
